@@ -23,7 +23,7 @@ import numpy as np
 
 from vf.models.base import Model, short
 
-REWARD_TWINS = {"n5s": "n5d", "n5d": "n5s", "n20d": "n20s", "n20s": "n20d"}
+REWARD_TWINS = {"n5s": "n5d", "n5d": "n5s", "n20d": "n20s", "n20s": "n20d", "zb6d": "zb6s", "zb6s": "zb6d"}
 DEPOT = 0
 
 
